@@ -69,9 +69,18 @@ def load_cov(orb, data):
     return cov
 
 
-def dump_cov(cov):
+def dump_cov(cov, frame=None):
+    """
+    Args:
+        cov (Cov)
+        frame (Frame): frame of the state the covariance is written with. The
+            frame of the covariance is explicitly written when it differs
+    """
+    if frame is None:
+        frame = cov.orb.frame
+
     text = "\n"
-    if cov.frame != cov.orb.frame:
+    if cov.frame != frame:
         frame = cov.frame
         if frame == "QSW":
             frame = "RSW"
